@@ -116,6 +116,7 @@ SendOK(o) ==    \* o = [table, recv, kind, handed, plugin, dataNorm, outcome, bo
      THEN ~ o.handed /\ o.outcome = "err"          \* a failed hand-off, to be retried; nothing misdirected
      ELSE /\ o.handed /\ o.plugin = want.plugin /\ o.dataNorm = want.data
           /\ o.outcome = "ok"
+          /\ o.msgType = o.kind          \* the transport is told what kind of message it carries
           /\ o.bodyType = o.kind
           /\ IF o.kind = "notify"
              THEN o.bodyPromiseId = o.promiseId /\ ~ o.bodyHasTask
